@@ -38,9 +38,15 @@ func (fs FailStops) Check(r *Run) {
 	if fs.Fail == OErrNonNil {
 		// a helper of the package whose error is non-nil whenever the wrapped call fails stands for the call
 		if ws := FailWrappers(f, fs.Spec, FailCall{Callee: ns, Idx: fs.Idx, Outcome: fs.Fail, ArgOK: fs.ArgOK}); len(ws) > 0 {
-			wn := Names(ws...)
+			wn := NameSet{} // (not Names: being a wrapper does not make the helper a named function)
+			for _, w := range ws {
+				wn[w] = true
+			}
 			spec.FailCalls = append(spec.FailCalls, FailCall{Callee: wn, Idx: -1, Outcome: OErrNonNil})
-			all := Names(fs.Callee...)
+			all := NameSet{}
+			for _, k := range fs.Callee {
+				all[k] = true
+			}
 			for k := range wn {
 				all[k] = true
 			}
